@@ -64,14 +64,17 @@ def exc_isa(cls, parent):
 
 
 class Obligation:
-    __slots__ = ("name", "clause", "props", "status", "secs", "model", "where", "kind", "path", "reason")
+    __slots__ = ("name", "clause", "props", "status", "secs", "model", "where", "kind", "path", "reason", "abstracted")
 
-    def __init__(self, name, clause, props, status, secs, where, kind, model=None, path=None, reason=None):
+    def __init__(self, name, clause, props, status, secs, where, kind, model=None, path=None, reason=None, abstracted=False):
         self.name, self.clause, self.props, self.status, self.secs = name, clause, props, status, secs
         self.where, self.kind, self.model, self.path, self.reason = where, kind, model, path, reason
+        # the path went through a statement / argument / local loop that was abstracted (opaque fallback): a counter-model
+        # there may not be realisable, so a refutation counts only when it replays on the real function
+        self.abstracted = abstracted
 
     def as_dict(self):
-        return dict(name=self.name, clause=self.clause, props=list(self.props), status=self.status,
+        return dict(name=self.name, clause=self.clause, props=list(self.props), status=self.status, abstracted=self.abstracted,
                     secs=round(self.secs, 4), where=self.where, kind=self.kind, model=self.model, reason=self.reason)
 
 
@@ -207,6 +210,8 @@ class Exec:
         self.skip = set()  # (name, clause) already refuted by a ground counter-model: not re-solved
         self.only_props = None  # restrict solving to obligations tagged with one of these properties
         self.stats = dict(paths=0, queries=0, feas=0)
+        self.cpu_deadline = None  # soft limit (process CPU seconds): past it, open obligations are reported `unknown` without solving
+        self.exhausted = False
 
     # ------------------------------------------------------------------ path machinery
     def _reset(self, prefix):
@@ -221,6 +226,7 @@ class Exec:
         self._qmemo = {}
         self._pcsat = {}
         self.trace = []
+        self.path_opaque = 0
         self.loop_stack = []
         self.warned = z3.BoolVal(False)
 
@@ -357,6 +363,11 @@ class Exec:
         if (name, clause) in self.skip:
             self.obligations.append(Obligation(name, clause, props, "refuted", 0.0, where, kind, None, list(self.taken), "refuted in mode g"))
             return
+        if self.cpu_deadline is not None and time.process_time() > self.cpu_deadline:
+            self.exhausted = True
+            self.obligations.append(Obligation(name, clause, props, "unknown", 0.0, where, kind, None, list(self.taken),
+                                               "task CPU budget exhausted before this obligation was tried", abstracted=getattr(self, "path_opaque", 0) > 0))
+            return
         self.stats["queries"] += 1
         t = time.time()
         if self.mode == "q":
@@ -415,7 +426,8 @@ class Exec:
         else:
             status = "unknown"
             reason = s.reason_unknown()
-        self.obligations.append(Obligation(name, clause, props, status, secs, where, kind, model, list(self.taken), reason))
+        self.obligations.append(Obligation(name, clause, props, status, secs, where, kind, model, list(self.taken), reason,
+                                           abstracted=getattr(self, "path_opaque", 0) > 0))
         if self.verbose:
             print("   %-11s %6.2fs %s" % (status, secs, name))
 
@@ -694,6 +706,11 @@ class Exec:
             if budget is not None and npaths >= budget:
                 self.leftover = work
                 break
+            if self.cpu_deadline is not None and time.process_time() > self.cpu_deadline:
+                # hand the unexplored subtrees back instead of being killed with everything found so far
+                self.leftover = work
+                self.exhausted = True
+                break
             prefix = work.pop(0)
             self._reset(prefix)
             npaths += 1
@@ -770,7 +787,14 @@ class Exec:
             if exc == "AnyException":
                 allowed = []
             if not allowed and not spec.raises_any:
-                self.prove("%s/%s/exc-class" % (self.fname, tag), "exc-class", ("C05",), z3.BoolVal(False), where, "exc-class")
+                if exc == "AnyException":
+                    # the exception is an artefact of abstraction (an unmodelled, net-pure statement *may* raise): whether the real
+                    # statement raises, and what, is not decidable here - undecided, never a refutation
+                    if self.emitting() and (self.only_props is None or "C05" in self.only_props):
+                        self.obligations.append(Obligation("%s/%s/exc-class" % (self.fname, tag), "exc-class", ("C05",), "unknown", 0.0, where, "exc-class",
+                                                           None, list(self.taken), "an abstracted statement may raise an exception the contract does not list", abstracted=True))
+                else:
+                    self.prove("%s/%s/exc-class" % (self.fname, tag), "exc-class", ("C05",), z3.BoolVal(False), where, "exc-class")
             for cl in spec.ensures_all:
                 self.prove("%s/%s/%s" % (self.fname, tag, cl.name), cl.name, cl.props, cl.fn(c, A, R), where, "excpost")
             for k in allowed:
@@ -855,6 +879,7 @@ class Exec:
         is forgotten, its targets become unknown values, and it may raise (state unchanged)."""
         c = self.c
         self.opaque_used.append("%s: %s" % (self.where(st), why))
+        self.path_opaque += 1
         for n in ast.walk(st):
             if isinstance(n, ast.Name):
                 v = env.get(n.id)
@@ -1379,6 +1404,7 @@ class Exec:
         """A loop whose body cannot write a network needs no invariant: its locals are forgotten."""
         c = self.c
         self.opaque_used.append("local loop `%s`" % h)
+        self.path_opaque += 1
         names = self.objects_in(node.body, env)
         for nm in sorted(names):
             v = env.get(nm)
@@ -2054,6 +2080,7 @@ class Exec:
             if self.pure or not self.net_pure(a, env):
                 raise
             self.opaque_used.append("argument `%s`: %s" % (extract.stmt_text(a, 40), ex_))
+            self.path_opaque += 1
             if self.choose(2) == 1:
                 raise SymRaise("AnyException", self.where(self.cur))
             return VVal(self.c.fresh_id("arg"))
